@@ -516,6 +516,60 @@ class _projection_u:
                    *[same(attr(x, "_bins"), attr(y, "_bins")) for x, y in zip(attr(old.self, "_binnings"), attr(a.self, "_binnings"))])
 
 
+def line_prefix(F, i, j, axis):
+    """running sum at cell (i, j) along `axis` of the 2-D array F: the first i + 1 cells of column j (axis 0) / first j + 1 of row i"""
+    if isinstance(F, TArr_):
+        import z3
+        from pyvc.tarr import sum_fn, kind_of_dtype
+        from pyvc.values import term_of, raw, mk, CURRENT
+        t = z3.Int(CURRENT["interp"].ctx.fresh_name("t"))
+        it, jt = term_of(raw(i), "int"), term_of(raw(j), "int")
+        line = z3.Lambda([t], z3.Select(F.term, t, jt) if axis == 0 else z3.Select(F.term, it, t))
+        kd = kind_of_dtype(F.dtype)
+        return mk(sum_fn(kd)(line, z3.IntVal(0), (it if axis == 0 else jt) + 1), kd)
+    import numpy as _np
+    A = _np.asarray(F)
+    return total(A[:i + 1, j] if axis == 0 else A[i, :j + 1])
+
+
+@contract(HNDK + ".accumulate", props=["C09", "C12"], name=HNDK + ".accumulate[2-D, any shape]")
+class _accumulate_u:
+    """running sums of a 2-D histogram of ANY shape along exactly one axis (by index or by name); bins, names, squared errors and
+    missed count are the parent's, the parent is untouched"""
+    probe = "quantifier-free"
+
+    def configs():
+        return [{"axis": 0}, {"axis": 1}, {"axis": "yy"}]
+
+    def inputs(b):
+        n0, n1 = b.int("n0"), b.int("n1")
+        b.assume(And(n0 >= 1, n1 >= 1))
+        return dict(self=hist2d_t(b, "h", n0, n1), axis=b.cfg.axis)
+
+    def invoke(I, fn, a, cfg):
+        if I is not None:
+            return I.call(fn, [a.self, a.axis], {})
+        return fn(a.self, a.axis)
+
+    @ensures("running_sums_along_exactly_that_axis")
+    def _(a, old, result):
+        ax = {"xx": 0, "yy": 1}.get(old.axis, old.axis)
+        F0, f = attr(old.self, "_frequencies"), attr(result, "_frequencies")
+        n0, n1 = shape_of(F0)
+        return And(typename(result) == typename(old.self), shape_of(f)[0] == n0, shape_of(f)[1] == n1,
+                   forall(0, n0, lambda i: forall(0, n1, lambda j: f[i, j] == line_prefix(F0, i, j, ax))),
+                   attr(result, "_dtype") == attr(old.self, "_dtype"),
+                   tuple(attr(result, "_meta_data")["axis_names"]) == ("xx", "yy"))
+
+    @ensures("bins_of_both_axes_are_the_parents_and_the_parent_is_untouched")
+    def _(a, old, result):
+        return And(same(attr(old.self, "_frequencies"), attr(a.self, "_frequencies")), same(attr(old.self, "_errors2"), attr(a.self, "_errors2")),
+                   result is not a.self, attr(result, "_frequencies") is not attr(a.self, "_frequencies"),
+                   *[x is not y for x in attr(result, "_binnings") for y in attr(a.self, "_binnings")],
+                   *[same(attr(x, "_bins"), attr(y, "_bins")) for x, y in zip(attr(old.self, "_binnings"), attr(a.self, "_binnings"))],
+                   *[same(attr(x, "_bins"), attr(y, "_bins")) for x, y in zip(attr(old.self, "_binnings"), attr(result, "_binnings"))])
+
+
 # ---------------------------------------------------------------------------------------------- adaptive fill (C04, C03)
 
 @contract(H1K + ".fill", props=["C04", "C03"], name=H1K + ".fill[adaptive, any bin count]")
